@@ -26,6 +26,7 @@ extern int vh_io_n;               /* script length */
 extern int vh_io_pos;             /* next script entry */
 extern int vh_io_script[VH_IO_MAX]; /* >0: transfer at most that many bytes; <0: fail with errno=-v ; 0: pass through */
 extern int vh_io_calls;
+extern int vh_io_errs;             /* failures actually returned to the library since the script was installed */
 /* ---- locale ---- */
 extern int vh_loc_dup_fail, vh_loc_new_fail; /* fail the next dup/new */
 extern long vh_loc_live;          /* locale objects created by json-c and not freed */
